@@ -146,6 +146,8 @@ def run(tier):
     jobs = []
     if os.environ.get("VERIF_C08_ONLY") == "borrow":      # development aid: only the fixed borrow world
         units = []
+    if os.environ.get("VERIF_C08_ONLY") == "few":         # development aid: a handful of signatures
+        units = units[::25]
     for n, u in enumerate(units):
         for cfgname in rexec.ASYNC_CONFIGS:
             if cfgname != "both" and n % 3 != (1 if cfgname == "export-only" else 2):
